@@ -21,7 +21,7 @@ func init() {
 const valuePkg = core.ModPath + "/interpreter/value"
 
 func runC08(c *core.Ctx) {
-	c.Explanation = "Structural necessary conditions of crash-free, bounded simulation, decided on SSA of interpreter/** and tester: (sim.recursion) every recursion of the simulator is structurally descending on the syntax tree or dominated by a depth/visited guard (E9) — restart re-entry, subroutine calls, include expansion; (sim.arith) every integer division/remainder has a divisor that is a non-zero constant or is dominated by the non-zero edge of a test of the same value (same canonical access path; a test of a float does not discharge a division by its integer conversion), and every shift has a count that is unsigned, constant, masked, or dominated by a non-negative test of the same value; (sim.unwrap) every value.Unwrap[T](v) whose result is dereferenced is dominated by a test of v's type tag for T (if/switch/early-return forms, on the same v) or by a nil test of the result; built-ins: the generated Validate call dominates and the unwrapped type agrees with the declared argument type table, and every args[k] lies inside the validated arity; (sim.optnil) grammar-optional syntax fields are nil-tested before being dereferenced (E2). (sim.lock) every sync.Mutex Lock in interpreter/tester is released on every path to a return (deferred or direct Unlock; a defer registered just before the Lock counts) — a leaked lock blocks the next request forever; (sim.memo) a self-recursive graph walk that guards against cycles only with an on-path set (marked before, unmarked after the recursive calls) fills a memo on every completed call, otherwise it is exponential in the number of paths. (sim.ctxnil) typestate of the per-request objects restart() resets to nil (backend request/response, object, response): forward must-dataflow of `established` (non-nil store, non-nil edge of a nil test) inside each function, entry sets as greatest fixpoint over the call sites in package interpreter, plus what a lifecycle scope establishes before it runs its subroutine for code that only runs under a Scope.Is guard; every dereference in the lifecycle functions and in the variable objects of each scope must be established. (sim.libpre) math/rand's Intn/Int63n get an argument that is a positive constant, len() of something tested non-empty, or dominated by a test of that very value implying n > 0; make([]T, n) with n from a VCL value is dominated by a non-negative test; crypto/rand.Int gets a limit tested positive; CryptBlocks input length is tested to be a multiple of the block size; an allocation size (make, strings/bytes.Repeat) computed from a VCL INTEGER is compared with a constant upper bound. (sim.lastidx) every x[len(x)-k] / x[:len(x)-v] is dominated by a length test, a push/pop pairing or a comparison of v with the length; (sim.indexneg) a strings/bytes Index* result used as a slice bound is tested against -1 first; (sim.vclbound) a VCL INTEGER used as a slice bound as is is tested non-negative and against the length; (sim.constidx) x[k] / x[a:b] with constant bounds outside args[k]: the length is known by construction (make, literal, digest, Split behind Contains, successful Peek(n), non-nil regexp match with the group count of the compiled pattern, callee returning a literal) or dominated by a length / HasPrefix test, seven named exceptions; (sim.backendnil) every dereference of the backend declaration of a value.Backend (nil for a director and for an unassigned BACKEND local) is dominated by a non-nil test of that declaration, in the function or at every call site of an unexported helper."
+	c.Explanation = "Structural necessary conditions of crash-free, bounded simulation, decided on SSA of interpreter/** and tester: (sim.recursion) every recursion of the simulator is structurally descending on the syntax tree or dominated by a depth/visited guard (E9) — restart re-entry, subroutine calls, include expansion; (sim.arith) every integer division/remainder has a divisor that is a non-zero constant or is dominated by the non-zero edge of a test of the same value (same canonical access path; a test of a float does not discharge a division by its integer conversion), and every shift has a count that is unsigned, constant, masked, or dominated by a non-negative test of the same value; (sim.unwrap) every value.Unwrap[T](v) whose result is dereferenced is dominated by a test of v's type tag for T (if/switch/early-return forms, on the same v) or by a nil test of the result; built-ins: the generated Validate call dominates and the unwrapped type agrees with the declared argument type table, and every args[k] lies inside the validated arity; (sim.optnil) grammar-optional syntax fields are nil-tested before being dereferenced (E2). (sim.lock) every sync.Mutex Lock in interpreter/tester is released on every path to a return (deferred or direct Unlock; a defer registered just before the Lock counts) — a leaked lock blocks the next request forever; (sim.memo) a self-recursive graph walk that guards against cycles only with an on-path set (marked before, unmarked after the recursive calls) fills a memo on every completed call, otherwise it is exponential in the number of paths. (sim.ctxnil) typestate of the per-request objects restart() resets to nil (backend request/response, object, response): forward must-dataflow of `established` (non-nil store, non-nil edge of a nil test) inside each function, entry sets as greatest fixpoint over the call sites in package interpreter, plus what a lifecycle scope establishes before it runs its subroutine for code that only runs under a Scope.Is guard; every dereference in the lifecycle functions and in the variable objects of each scope must be established. (sim.libpre) math/rand's Intn/Int63n get an argument that is a positive constant, len() of something tested non-empty, or dominated by a test of that very value implying n > 0; make([]T, n) with n from a VCL value is dominated by a non-negative test; crypto/rand.Int gets a limit tested positive; CryptBlocks input length is tested to be a multiple of the block size; an allocation size (make, strings/bytes.Repeat) computed from a VCL INTEGER is compared with a constant upper bound. (sim.lastidx) every x[len(x)-k] / x[:len(x)-v] is dominated by a length test, a push/pop pairing or a comparison of v with the length; (sim.indexneg) a strings/bytes Index* result used as a slice bound is tested against -1 first; (sim.vclbound) a VCL INTEGER used as a slice bound as is is tested non-negative and against the length; (sim.constidx) x[k] / x[a:b] with constant bounds outside args[k]: the length is known by construction (make, literal, digest, Split behind Contains, successful Peek(n), non-nil regexp match with the group count of the compiled pattern, callee returning a literal) or dominated by a length / HasPrefix test, seven named exceptions; (sim.backendnil) every dereference of the backend declaration of a value.Backend (nil for a director and for an unassigned BACKEND local) is dominated by a non-nil test of that declaration, in the function or at every call site of an unexported helper. (sim.errvalue) the value of a call whose error is discarded is not dereferenced without a nil test; sim.optnil follows nil into callees that type-switch on it."
 	c.NotCovered = []string{"panics inside third-party libraries and the standard library (regexp, net, time)", "regex backtracking time; allocations whose size is not computed from a VCL INTEGER", "that saturation values are the right numbers", "slice bounds computed by arithmetic on run-time values other than the decided families (substr, parse_time_delta, url normalisation, ESI splitting, regexp submatch indices)"}
 	prog := c.Prog
 	u := newAstUniverse(prog)
